@@ -182,7 +182,7 @@ pub fn gen_cmd(src: &mut Src, g: &mut GenCfg) -> Cmd {
             0 => { let mut v = vec![b("SCAN"), b("0")]; if src.chance(1, 3) { v.push(b("MATCH")); v.push(b(["*", "k*", "k?", "[a-z]*", "k[0-9]", "[k]0", "k1", "k\\0", "\\k1"][src.idx(9)])); } if src.chance(1, 3) { v.push(b("COUNT")); v.push(b(["10", "1", "100"][src.idx(3)])); } c(v) }
             1 => c(vec![b("HSCAN"), k, b("0")]),
             2 => c(vec![b("ZSCAN"), k, b("0")]),
-            _ => c(vec![b("KEYS"), b(["*", "k*", "k?", "*0", "k[0-9]", "[k]1", "k0", "key:[0-9]", "[a-z]2", "k\\0", "\\k1", "k\\2"][src.idx(12)])]),
+            _ => c(vec![b("KEYS"), b(["*", "k*", "k?", "*0", "k[0-9]", "[k]1", "k0", "key:[0-9]", "[a-z]2", "k\\0", "\\k1", "k\\2", "k0*0", "k*k1"][src.idx(14)])]),
         },
         Fam::MultiKey => match src.below(5) {
             0 => { let mut v = vec![b("MGET")]; for _ in 0..=src.below(3) { v.push(g.key(src)); } c(v) }
